@@ -7,7 +7,12 @@ Op lines (one self-contained solver run per line; doubles as 16 hex digits):
 f(x) = ||A(x-xs)||_1 (norm 1) or ||A(x-xs)||_inf (norm 0) + mu/2 ||x-xs||^2, f* = 0 at xs.
 The harness appends ` | <eps0> <epsM> <wbegin> <nrec> (<tag> <count> <doubles>)*`: the window of the raw trace
 (wmode 0: from the start, 1: the tail of the run, 2: from fraction wfrac; at most <budget> doubles).
-Result: `ok <status> <fx> <x> <fcalls> <gcalls> <evals> <nrecords> <nnull> <nserious> trace <groups>`.
+Result: `ok <status> <fx> <x> <fcalls> <gcalls> <evals> <nrecords> <nnull> <nserious> qp <calls(>=3 rows)> <max|sum-1|>
+<min alpha> <max FW gap (QP solver reported converged, miu <= 1e8)> <max FW gap (2 rows)> <calls not reported converged>
+<their max gap> trace <groups>` — the `qp` figures are the run-time monitor of the QP contract over EVERY bundle_t::solve of the
+run (computed in the trace sink of the harness); the groups now include `outer` (which call of the outer loop of RQB / FPBA
+follows a curve search, with which point), the proximity parameter handed to every curve-search pass, and `final` (the status of
+the returned state, when the window reaches the end of the run), all predicted by Model/BundleSolver.lean / Model/Ellipsoid.lean.
 """
 import math, os
 import vlib
@@ -16,7 +21,7 @@ from vlib import Toks, lst, f2h, h2f
 ID = "C03"
 LEVEL = "proof"
 HARNESS = "c03"
-LEAN_MODULES = ["NanoVerif.Props.C03"]
+LEAN_MODULES = ["NanoVerif.Props.C03", "NanoVerif.Proofs.BundleSolver"]
 NB = "NanoVerif.Bundle."
 NE = "NanoVerif.Ellipsoid."
 OBLIGATIONS = []   # filled in below (kept next to the theorem list)
@@ -25,13 +30,17 @@ TRUSTED = [
     "Algebra.Order.Field.Rat; Analysis.Real.Sqrt only for the non-vacuity examples over the reals) only in Proofs/ and Props/",
     "axioms: at most propext, Classical.choice, Quot.sound (audited per theorem on every run)",
     "hand-written generic-scalar models NanoVerif/Model/Bundle.lean (bundle.cpp append/moveto/delete/aggregate, bundle.h smeared "
-    "quantities, econverged/sconverged, csearch.cpp loop body) and Model/Ellipsoid.lean (ellipsoid.cpp 1-D branch, deep-cut update, "
-    "stopping tests); tied to the code by trace replay: harness/c03.cpp runs rqb/fpba1/fpba2/ellipsoid with the NANO_VERIF trace "
-    "sink installed, driver_c03 replays every logged append / solve / csearch pass / ellipsoid update from the logged pre-state",
+    "quantities, econverged/sconverged, csearch.cpp loop body), Model/BundleSolver.lean (proximity.cpp, nesterov.h, the whole "
+    "csearch loop, the outer loops of rqb.cpp / fpba.cpp) and Model/Ellipsoid.lean (ellipsoid.cpp: 1-D loop, n-D loop with the "
+    "deep-cut update, solver_t::done); tied to the code by trace replay: harness/c03.cpp runs rqb/fpba1/fpba2/ellipsoid with the "
+    "NANO_VERIF trace sink installed, driver_c03 replays every logged append / solve / csearch pass / outer-loop decision "
+    "(serious or null, the point handed to the bundle, the Nesterov extrapolation, the proximity parameter) / ellipsoid pass "
+    "(iterND) / final status from the logged pre-state and oracle answers",
     "ORACLES of the model (contracts are hypotheses of the theorems, monitored on every trace): the objective returns true "
-    "sub-gradients; bundle_t::solve returns a point of the simplex for >= 3 rows (|sum-1| <= 1e-9, alpha >= -1e-12; proved for 1 and 2 "
-    "rows: solve1_simplex, solve2_simplex); std::nth_element meets its contract (NthElement); for n >= 2 the deep-cut update keeps "
-    "the minimiser inside the ellipsoid (Loewner-John), not proved",
+    "sub-gradients; bundle_t::solve returns a point of the simplex for >= 3 rows (|sum-1| <= 1e-9, alpha >= -1e-12 on EVERY call of "
+    "every run; proved for 1 and 2 rows: solve1_simplex, solve2_simplex) and, whenever the QP solver itself reports converged, a "
+    "KKT point (relative Frank-Wolfe gap <= 1e-6; not needed by any theorem, monitored only); std::nth_element meets its contract "
+    "(NthElement). The Loewner-John containment of the deep-cut update is PROVED (ellipsoid_deep_cut_contains), no longer an oracle",
     "Lean Float = g++ double for + - * / sqrt evaluated in the same order; Eigen reductions compared with tolerance",
     "tools/props/c03.py generator + independent python evaluation of f, of the two inequalities and of the lower-bound hypothesis; "
     "harness/c03.cpp; g++/libstdc++/Eigen",
@@ -41,8 +50,15 @@ ASSUMPTIONS = [
     "for v >= 0); rounding is covered by the correspondence / oracle runs only",
     "the quadratic sub-problem solver and std::nth_element of delete_largest are oracles: any simplex point / any surviving "
     "sub-collection keeps the theorems valid",
-    "ellipsoid, n >= 2: containment of the minimiser after the deep-cut update is a hypothesis (ellipsoid_nd_run_certificate_partial); "
-    "ellipsoid, n = 1: the code maintains x* in [x - 2H, x + 2H] (not the interval of radius H): proved as such",
+    "ellipsoid, n >= 2: the only containment assumed is ||x* - x0|| <= R (the starting ball); the iterates' containment is the proved "
+    "loop invariant (ellipsoid_nd_run_certificate); ellipsoid, n = 1: the code maintains x* in [x - 2H, x + 2H] (not the interval of "
+    "radius H): proved as such",
+    "bundle solvers: the clause 'the ACTIVE multipliers (what delete_inactive keeps) sum to 1 when the bundle is full' of the solve "
+    "contract (EnvOK.hsolve, hypothesis hw of appendFull_valid) is exact only if the dropped multipliers are exactly 0; it is "
+    "necessary in exact arithmetic (kernel-checked witness hw_necessary); in the code the dropped mass is < size * 1e-15",
+    "the QP sub-solver is NOT always optimal on the unchanged tree: when a curve search stalls (t -> 0, miu/t up to 1e170) it "
+    "reports converged with the uniform starting point; such calls (miu/t > 1e8) and calls it does not report converged for are "
+    "counted in the evidence, not failed (no theorem needs optimality)",
     "convergence of the ellipsoid method within 20000 evaluations for n <= 6 is tested only (floating-point convergence-rate claim)",
     "correspondence tolerances: copied rows exact; recomputed sums/dot products/matrix updates relative 1e-9 of the largest entry of "
     "the compared vector plus 1e-12 * (sum of the absolute values of the terms of the formula); decisions (econv, sconv, converged, "
@@ -67,8 +83,16 @@ OBLIGATIONS = [NB + t for t in [
 ]] + [NE + t for t in [
     "ellipsoid_stop_certificate", "ellipsoid_converged_certificate", "ellipsoid_early_certificate", "best_le",
     "ellipsoid_mem_of_factor", "deep_cut_valid", "ellipsoid_1d_contains", "ellipsoid_1d_stop_certificate",
-    "ellipsoid_1d_run_certificate", "ellipsoid_nd_run_certificate_partial",
-]]
+    "ellipsoid_1d_run_certificate", "ellipsoid_init_contains", "ellipsoid_deep_cut_contains", "ellipsoid_nd_run_certificate",
+    "ellipsoid_nd_converged_10eps", "ellipsoid_done_logic", "ellipsoid_no_budget",
+    # helper layer of the Loewner-John step (Proofs/EllipsoidLJ.lean, EllipsoidStep.lean, EllipsoidLoop.lean)
+    "lj_det", "lj_plane", "lj_scalar", "quad_vaxpy", "dot_mv_stepH", "stepH_wellH", "stepND_contains", "dot_mv_initH",
+    "initH_wellH", "initH_contains", "iterND_spec", "runND_spec",
+]] + ["NanoVerif.BundleSolver." + t for t in [
+    # outer loops of RQB / FPBA1 / FPBA2 (Proofs/BundleSolver.lean)
+    "miuInit_pos", "proxUpdate1_pos", "proxUpdate2_pos", "csearchLoop_spec", "seriousR_inv", "seriousF_inv", "pass_spec",
+    "run_spec", "start_inv", "solver_run_certificate", "solver_run_statement_bound",
+]] + ["NanoVerif.C03SolverExamples.exE_ok", "NanoVerif.C03SolverExamples.hw_necessary"]
 
 
 # ---------------------------------------------------------------------------------------------------------
@@ -269,11 +293,27 @@ def parse_res(res):
         return None
     out = dict(status=r.s(), fx=r.f(), x=r.fs(), fcalls=r.int(), gcalls=r.int(), evals=r.int(), nrec=r.int(),
                nnull=r.int(), nserious=r.int())
+    if not r.done() and r.t[r.i] == "qp":
+        r.s()
+        out["qp"] = dict(count=r.int(), maxdev=r.f(), minalpha=r.f(), maxgap=r.f(), maxgap2=r.f(), unconv=r.int(),
+                         maxgap_unconv=r.f())
     return out
 
 
 _INFO = {}
 _QMAX = [0.0]
+_QP = dict(calls=0, unconverged=0, maxgap=0.0, maxgap2=0.0, maxgap_unconverged=0.0)
+QP_GAP = 1e-6   # observed on the unchanged tree (800 runs): <= 6e-9 (QP solver), <= 4e-8 (2 rows)
+
+
+def fw_gap(n, miu, al, E, S):
+    """(a'gr - min gr) / max_i sum|terms of gr_i| for gr = S S'a + miu e"""
+    size = len(al)
+    sbar = [sum(al[i] * S[i * n + j] for i in range(size)) for j in range(n)]
+    sabs = [sum(abs(al[i] * S[i * n + j]) for i in range(size)) for j in range(n)]
+    gr = [miu * E[i] + sum(S[i * n + j] * sbar[j] for j in range(n)) for i in range(size)]
+    sc = max([abs(miu * E[i]) + sum(abs(S[i * n + j]) * sabs[j] for j in range(n)) for i in range(size)] + [1e-300])
+    return (sum(a * g for a, g in zip(al, gr)) - min(gr) * sum(al)) / sc
 
 
 def quad_inv(H, n, d):
@@ -359,6 +399,20 @@ def oracle(aug, res):
                         f"{bound!r}")
     elif ell and n <= 6 and case["max_evals"] >= 20000 and dist(case["x0"], case["xs"]) <= case["R"]:
         return f"ellipsoid did not report converged within 20000 evaluations (status {out['status']}, f(x)-f*={f_x!r}, evals={out['evals']})"
+    # run-time monitor of the QP contract over EVERY bundle_t::solve of the run (figures computed by the harness in the sink)
+    qp = out.get("qp")
+    if qp is not None and not ell:
+        _QP["calls"] += qp["count"]; _QP["unconverged"] += qp["unconv"]
+        _QP["maxgap"] = max(_QP["maxgap"], qp["maxgap"]); _QP["maxgap2"] = max(_QP["maxgap2"], qp["maxgap2"])
+        _QP["maxgap_unconverged"] = max(_QP["maxgap_unconverged"], qp["maxgap_unconv"])
+        if qp["maxdev"] > 1e-9 or qp["minalpha"] < -1e-12:
+            return (f"solve: multipliers are not in the simplex in some call of the run: max|sum-1|={qp['maxdev']!r} "
+                    f"min alpha={qp['minalpha']!r}")
+        if qp["maxgap"] > QP_GAP:
+            return (f"solve: the quadratic sub-solver reported converged but its multipliers are not KKT-optimal for the bundle "
+                    f"problem min 1/2|S'a|^2 + miu e'a over the simplex: relative Frank-Wolfe gap {qp['maxgap']!r} > {QP_GAP}")
+        if qp["maxgap2"] > QP_GAP:
+            return (f"solve: the analytic 2-row multipliers are not optimal: relative Frank-Wolfe gap {qp['maxgap2']!r} > {QP_GAP}")
     # hypotheses of the theorems, checked on the logged trace against the known f
     zs = test_points(case)
     fz = [fval(case, z) for z in zs]
@@ -396,6 +450,15 @@ def oracle(aug, res):
                     return why
             if abs(sum(al) - 1.0) > 1e-9 or min(al) < -1e-12:
                 return f"solve: multipliers are not in the simplex: sum={sum(al)!r} min={min(al)!r}"
+            # KKT optimality, recomputed here from the logged QP (independent of the harness's figure): with gr = S S'a + miu e,
+            # a is optimal over the simplex iff a'gr = min_i gr_i (Frank-Wolfe gap 0). 2 rows: analytic path, always;
+            # >= 3 rows: when the QP solver reported converged for every call of the run and miu/t is in a sane range
+            miu = v[0]
+            if size == 2 or (size >= 3 and qp is not None and qp["unconv"] == 0 and miu <= 1e8):
+                gap = fw_gap(n, miu, al, E, S)
+                if gap > QP_GAP:
+                    return (f"solve: multipliers of a {size}-row bundle problem are not KKT-optimal: relative Frank-Wolfe gap "
+                            f"{gap!r} > {QP_GAP} (miu={miu!r})")
         elif tag == "ellipsoid.iter":
             gHg = rd.f(); f = rd.f(); best = rd.f(); rd.f(); xc = rd.l(); g = rd.l()
             f_c = fval(case, xc)
@@ -430,7 +493,7 @@ def nontrivial(op):
 
 
 def distribution(ops):
-    d = {}
+    d = {"qp/calls(>=3 rows)": _QP["calls"], "qp/calls the QP solver did not report converged for": _QP["unconverged"]}
     for op in ops:
         t = op.split()
         if t[0] == "bundle":
@@ -462,6 +525,8 @@ def classify(op, kind, detail):
             return "ellipsoid:not-converged-within-20000"
         if "simplex" in detail:
             return f"{who}:multipliers-off-simplex"
+        if "KKT-optimal" in detail or "not optimal" in detail:
+            return f"{who}:multipliers-not-kkt-optimal"
         return f"{who}:oracle"
     return f"{who}:{kind}"
 
